@@ -6,10 +6,22 @@ import sys
 sys.path.insert(0, os.path.join(os.path.dirname(__file__), ".."))
 
 
+def _pick(tier, quick, thorough):
+    """budget per tier; `escalated` (the source of the property's cone differs from the modelled baseline, tools/lib/fingerprint.py)
+    is six times the quick budget, capped by the thorough one"""
+    if tier == "quick":
+        return quick
+    if tier == "escalated":
+        if isinstance(quick, tuple):
+            return tuple(min(t, 6 * q) for q, t in zip(quick, thorough))
+        return min(thorough, 6 * quick)
+    return thorough
+
+
 def layer_a(seed, tier, only=None, quick=25, thorough=400):
     from harness import layer_a as L
 
-    r = L.run(seed, quick if tier == "quick" else thorough, only)
+    r = L.run(seed, _pick(tier, quick, thorough), only)
     nontriv = sum(v["cases"] for k, v in r["per_def"].items() if v["cases"] > 1)
     return dict(ok=r["ok"], cases=r["cases"], distinct_nontrivial=nontriv, defs=r["defs"], strata=r["strata"], samples=r["samples"], disagreements=r["disagreements"], errors=r["errors"])
 
@@ -17,35 +29,35 @@ def layer_a(seed, tier, only=None, quick=25, thorough=400):
 def graph_chi2(seed, tier, quick=60, thorough=2000):
     from harness import chi2 as C
 
-    r = C.run(seed, quick if tier == "quick" else thorough)
+    r = C.run(seed, _pick(tier, quick, thorough))
     return dict(ok=r["ok"], cases=r["cases"], distinct_nontrivial=r["edges"], graphs=r["graphs"], worlds=r["worlds"], samples=r["samples"], disagreements=r["disagreements"][:3])
 
 
 def assembly(seed, tier, quick=80, thorough=3000):
     from harness import assembly as A
 
-    r = A.run(seed, quick if tier == "quick" else thorough)
+    r = A.run(seed, _pick(tier, quick, thorough))
     return dict(ok=r["ok"], cases=r["cases"], distinct_nontrivial=r["graphs"], graphs=r["graphs"], worlds=r["worlds"], features=r["features"], solve_checked=r["solve_checked"], solve_nonfinite=r["solve_nonfinite"], fixed_vertices=r["fixed_vertices"], samples=r["samples"], disagreements=r["disagreements"][:3])
 
 
 def graphiter(seed, tier, quick=60, thorough=2500):
     from harness import graphiter as GI
 
-    r = GI.run(seed, quick if tier == "quick" else thorough)
+    r = GI.run(seed, _pick(tier, quick, thorough))
     return dict(ok=r["ok"], cases=r["cases"], distinct_nontrivial=r["graphs"], graphs=r["graphs"], worlds=r["worlds"], features=r["features"], fixed_vertices=r["fixed_vertices"], samples=r["samples"], disagreements=r["disagreements"][:3])
 
 
 def fullrun(seed, tier, quick=60, thorough=2500):
     from harness import fullrun as FR
 
-    r = FR.run(seed, quick if tier == "quick" else thorough)
+    r = FR.run(seed, _pick(tier, quick, thorough))
     return dict(ok=r["ok"], cases=r["cases"], distinct_nontrivial=r["runs"], runs=r["runs"], worlds=r["worlds"], iterations=r["iterations"], outcomes=r["outcomes"], borderline_not_compared=r["borderline"], nonfinite=r["nonfinite"], samples=r["samples"], disagreements=r["disagreements"][:3])
 
 
 def ctl(seed, tier, quick=(60, 400), thorough=(1500, 20000)):
     from harness import ctl as C
 
-    a, b = quick if tier == "quick" else thorough
+    a, b = _pick(tier, quick, thorough)
     r = C.run(seed, a, b)
     return dict(ok=r["ok"], cases=r["cases"], distinct_nontrivial=r["cases"], kinds=r["kinds"], outcomes=r["outcomes"], boundary_cases=r["boundary_cases"], samples=r["samples"], disagreements=r["disagreements"][:3])
 
@@ -53,14 +65,14 @@ def ctl(seed, tier, quick=(60, 400), thorough=(1500, 20000)):
 def numjac(seed, tier, quick=40, thorough=1500):
     from harness import numjac as N
 
-    r = N.run(seed, quick if tier == "quick" else thorough)
+    r = N.run(seed, _pick(tier, quick, thorough))
     return dict(ok=r["ok"], cases=r["cases"], distinct_nontrivial=r["edges"], kinds=r["kinds"], arities=r["arities"], samples=r["samples"], disagreements=r["disagreements"][:3])
 
 
 def purity(seed, tier, quick=(60, 40), thorough=(3000, 50)):
     from harness import purity as P
 
-    a, b = quick if tier == "quick" else thorough
+    a, b = _pick(tier, quick, thorough)
     r = P.run(seed, a, b)
     return dict(ok=r["ok"], cases=r["cases"], distinct_nontrivial=r["cases"], traces=r["traces"], ops=r["ops"], alias_probes=r["alias_probes"], samples=r["samples"], disagreements=r["disagreements"][:3])
 
@@ -69,7 +81,7 @@ def g2o(seed, tier, quick=(1500, 800), thorough=(10000, 5000)):
     """C13 / C14: the .g2o model (driver gsdriver_g2o) vs Graph.to_g2o / Graph.from_g2o / load.py on real temporary files"""
     from harness import g2o as G
 
-    n_graphs, n_files = quick if tier == "quick" else thorough
+    n_graphs, n_files = _pick(tier, quick, thorough)
     r = G.run(seed, n_graphs, n_files)
     keys = ("export_cases", "import_cases", "char_cases", "export_outcomes", "import_outcomes", "loaders", "line_kinds", "element_kinds", "cycles", "defects", "spellings",
             "max_lines", "warnings_seen", "nan_atoms_outside_assumption", "idempotence", "not_modelled")
